@@ -36,7 +36,8 @@ package ratelimiter
 // Holds whenever a bucket's lock is free, under every interleaving: token range, and the sliding-window
 // bound for the arbitrary window start winStart.
 //@ monitor bucket.mutex b
-//@   guards tokens, lastRefill, adm, seen
+//@   guards tokens, lastRefill, adm, seen, reclaimed
+//@   guarantee reclaimed_is_final: old(b.reclaimed) ==> b.reclaimed
 //@   inv range: rlCfg(ownerOf(b)) ==> bucketInv(ownerOf(b), b)
 //@   inv clock: b.lastRefill <= now()
 //@   inv window: rlCfg(ownerOf(b)) ==> window(ownerOf(b), b)
@@ -66,23 +67,42 @@ package ratelimiter
 //@   ensures seq: isolation: forall k string :: {rl.buckets.has[k]} k != clientIP ==> rl.buckets.has[k] == old(rl.buckets.has[k]) && rl.buckets.val[k] == old(rl.buckets.val[k])
 //@   modifies rl.buckets.has, rl.buckets.val, rl.buckets.dyn
 
+// C09 "at most max_tokens in a burst ... under any concurrency" is proved per BUCKET (window invariant of bucket.mutex);
+// it is a bound per CLIENT only if a client never spends from two buckets at once. The hourly cleanup drops buckets
+// from the map: it must mark the bucket as reclaimed in the same critical section, and a request that looked the
+// bucket up before must not spend from it once it is marked, but look again.
+//@ func (*TokenBucketRateLimiter).spend
+//@   props C09 C12
+//@   mode seq, mon
+//@   requires rlCfg(rl) && b != nil && b.owner == ptr(rl) && unlocked(b.mutex)
+//@   ghost after refillTokens :: b.pre := b.tokens
+//@   ghost release mutex if now() >= winStart && !b.reclaimed :: b.seen := true
+//@   ghost release mutex if now() >= winStart && !b.reclaimed && b.tokens < b.pre :: b.adm := b.adm + 1
+//@   ensures seq: a_reclaimed_bucket_is_never_spent_from: old(b.reclaimed) ==> !allowed && !decided && b.tokens == old(b.tokens) && b.lastRefill == old(b.lastRefill)
+//@   ensures seq: decided_unless_reclaimed: !old(b.reclaimed) ==> decided
+//@   ensures seq: spend: !old(b.reclaimed) ==> (allowed <==> b.tokens == b.pre - 1)
+//@   ensures seq: denied_keeps: !old(b.reclaimed) && !allowed ==> b.tokens == 0
+//@   ensures admitted_means_decided: allowed ==> decided
+//@   modifies b.tokens, b.lastRefill, b.adm, b.seen, b.pre
 //@ func (*TokenBucketRateLimiter).Allow
 //@   props C09 C12
 //@   mode seq, mon
 //@   requires rlCfg(rl) && mapInv(rl)
 //@   requires nolocks: forall x *bucket :: {x.mutex} unlocked(x.mutex)
-//@   ghost after refillTokens :: b.pre := b.tokens
-//@   ghost release mutex if now() >= winStart :: b.seen := true
-//@   ghost release mutex if now() >= winStart && b.tokens < b.pre :: b.adm := b.adm + 1
 //@   ensures map: mapInv(rl)
-//@   ensures seq: spend: result <==> asptr(rl.buckets.val[clientIP], *bucket).tokens == asptr(rl.buckets.val[clientIP], *bucket).pre - 1
-//@   ensures seq: denied_keeps: !result ==> asptr(rl.buckets.val[clientIP], *bucket).tokens == 0
 //@   ensures seq: isolation_map: forall k string :: {rl.buckets.has[k]} k != clientIP ==> rl.buckets.has[k] == old(rl.buckets.has[k]) && rl.buckets.val[k] == old(rl.buckets.val[k])
+//@   modifies rl.buckets.has, rl.buckets.val, rl.buckets.dyn, bucket.tokens, bucket.lastRefill, bucket.adm, bucket.seen, bucket.pre
+//@ loop (*TokenBucketRateLimiter).Allow #0
+//@   props C09 C12
+//@   invariant map: mapInv(rl) && rlCfg(rl)
+//@   invariant nolocks: forall x *bucket :: {x.mutex} unlocked(x.mutex)
+//@   invariant seq: isolation_map: forall k string :: {rl.buckets.has[k]} k != clientIP ==> rl.buckets.has[k] == old(rl.buckets.has[k]) && rl.buckets.val[k] == old(rl.buckets.val[k])
 //@   modifies rl.buckets.has, rl.buckets.val, rl.buckets.dyn, bucket.tokens, bucket.lastRefill, bucket.adm, bucket.seen, bucket.pre
 
 // ---- access policies (C12)
 //@ field bucket.tokens guarded_by bucket.mutex
 //@ field bucket.lastRefill guarded_by bucket.mutex
+//@ field bucket.reclaimed guarded_by bucket.mutex
 //@ field TokenBucketRateLimiter.maxTokens immutable
 //@ field TokenBucketRateLimiter.refillRate immutable
 
@@ -95,6 +115,7 @@ package ratelimiter
 //@   ensures only_when_a_fresh_bucket_is_equivalent: result ==> now - b.lastRefill >= rl.maxTokens * rl.refillRate
 //@   ensures never_within_the_hour: result ==> now - b.lastRefill > 3600000000000
 //@ ghost var droppedOnlyEquivalent Bool
+//@ ghost var droppedOnlyMarked Bool
 //@ func (*TokenBucketRateLimiter).cleanup$1
 //@   props C09
 //@   may_panic
@@ -102,8 +123,11 @@ package ratelimiter
 //@   requires now <= now()
 //@   ghost entry :: droppedOnlyEquivalent := true
 //@   ghost before Delete :: droppedOnlyEquivalent := now() - asptr(value, *bucket).lastRefill >= rl.maxTokens * rl.refillRate
+//@   ghost entry :: droppedOnlyMarked := true
+//@   ghost before Delete :: droppedOnlyMarked := asptr(value, *bucket).reclaimed && wlocked(asptr(value, *bucket).mutex)
 //@   ensures a_dropped_bucket_had_been_idle_for_max_tokens_refill_periods: droppedOnlyEquivalent
-//@   modifies droppedOnlyEquivalent, rl.buckets.has, rl.buckets.val, rl.buckets.dyn
+//@   ensures a_dropped_bucket_is_marked_reclaimed_in_the_same_critical_section: droppedOnlyMarked
+//@   modifies droppedOnlyEquivalent, droppedOnlyMarked, rl.buckets.has, rl.buckets.val, rl.buckets.dyn, bucket.reclaimed
 
 // the limiter runs with exactly the capacity and refill period it is built with
 //@ func NewTokenBucketRateLimiter
